@@ -180,6 +180,11 @@ def run_task(t):
         idx, lines = script_of_line(cur_trace, line_no, t["reset_event"])
         script_line = cur_part_lines[offset_scripts + idx] if offset_scripts + idx < len(cur_part_lines) else None
         mm = re.search(r'"n":(\d+)', lines[-1]) if lines else None
+        if not mm and lines:     # the process died: its fatal record (terminate / hang / registry) carries the script index
+            for ln in reversed(lines):
+                mm = re.search(r'"e":"(?:terminate|hang|double-destroy|double-construct|use-after-destroy)","o":(\d+)', ln)
+                if mm:
+                    break
         if mm:      # the interpreter numbers the scripts of this chunk itself (fault mode runs several executions per script)
             k = int(mm.group(1))
             script_line = cur_part_lines[k] if k < len(cur_part_lines) else script_line
